@@ -132,3 +132,40 @@ manifest_frames_harness!(c10_manifest_frames_python, 2);
 // @bound arrays / one-layer objects of 1 element; every loop of the manifester unwound to 2 iterations (unwinding assertions on); depth 0, not inside an inline table
 // @funcs Evaluator::do_manifest_toml_value, Evaluator::push_trace_item, Evaluator::delay_trace_item
 manifest_frames_harness!(c10_manifest_frames_toml, 3);
+
+// @harness id=c10_stack_trace_balanced props=C10,C16,C01 tier=attempt cap=1500
+// @desc Evaluator::get_stack_trace (the trace attached to every error) on a state stack produced by ANY sequence of four frame operations - push_trace_item, delay_trace_item (only while a frame is counted, as dec_trace_len demands) and pushes of ordinary states: it never pops an empty vector (no panic while REPORTING an error) and returns exactly stack_trace_len frames, i.e. the counter the limit is tested against equals the number of frames an error report shows
+// @bound sequences of 4 operations from an empty stack
+// @funcs Evaluator::get_stack_trace, Evaluator::push_trace_item, Evaluator::delay_trace_item
+eval_stubs! {
+#[kani::proof]
+#[kani::unwind(7)]
+fn c10_stack_trace_balanced() {
+    let arena = Arena::new();
+    let mut program = bare_program(&arena);
+    let mut ev = bare_evaluator(&mut program);
+    ev.state_stack.reserve(8);
+    let mut k = 0;
+    while k < 4 {
+        let op: u8 = kani::any();
+        kani::assume(op < 3);
+        match op {
+            0 => ev.push_trace_item(TraceItem::CompareArrayItem { index: k }),
+            1 => {
+                kani::assume(ev.stack_trace_len > 0);
+                ev.delay_trace_item();
+            }
+            _ => ev.state_stack.push(State::DiscardValue),
+        }
+        k += 1;
+    }
+    let tr = ev.get_stack_trace();
+    assert!(tr.len() == ev.stack_trace_len, "the error report shows exactly the counted frames");
+    kani::cover!(tr.len() == 0 && ev.state_stack.len() == 4, "all frames suspended again");
+    kani::cover!(tr.len() == 4, "four nested frames");
+    kani::cover!(tr.len() == 1, "one live frame");
+    core::mem::forget(tr);
+    core::mem::forget(ev);
+    core::mem::forget(program);
+}
+}
